@@ -144,7 +144,7 @@ def gen_histories(maxi, kinds, n, depth, seed, wd):
             out.append(json.loads(m.group(1).replace('\\"', '"')))
     if not out:
         raise Inconclusive("SlashSeqSim produced no behaviours")
-    return out[:n]
+    return stable_sample(out, n, seed)
 
 
 # ------------------------------------------------------------------ scenario construction
